@@ -423,7 +423,7 @@ def attempt(prop, violations, anchors, exp, repo, workdir, timeout=420):
             if m:
                 seen[key]['clauses'].add(int(m.group(1)))
             continue
-        if len(todo) >= 6:
+        if len(todo) >= 40:
             continue
         rec = dict(v=v, a=a, clauses=set([int(m.group(1))] if m else []))
         seen[key] = rec
@@ -513,6 +513,8 @@ def attempt(prop, violations, anchors, exp, repo, workdir, timeout=420):
         call += '(' + ', '.join((['self'] if sp['recv'] else []) + [p_[0] for p_ in sp['params']]) + ')'
         best, diff = None, None
         for (inp, ob, oc, rq, eb, ec) in rows.get(q, []):
+            if re.search(r'NaN|inf', ob) or ob == 'PANIC':
+                continue        # HEAD itself is singular on this input in f64 (division by ~0, overflow): not a usable witness either way
             req_ok = '0' not in rq and 'p' not in rq
             if sp.get('eval') and req_ok and 'u' not in rq and ec:
                 bad_k = [k for k in range(len(ec)) if ec[k] == '0' and k < len(eb) and eb[k] == '1']
